@@ -333,6 +333,11 @@ func replayAccept(prop string, raw json.RawMessage, col *engine.Collector) error
 	if err != nil {
 		return err
 	}
+	if ac.Kind == "synthetic" {
+		var st engine.Stats
+		defaultBufferShard(prop).Run(&st, col) // the three synthetic streams are re-run as a whole
+		return nil
+	}
 	pc := PCfg{Kind: ac.Kind, JSON: ac.Cfg}
 	cfg := pc.Config()
 	bc := cfg.BufConfig()
@@ -361,13 +366,38 @@ func replayAccept(prop string, raw json.RawMessage, col *engine.Collector) error
 	return nil
 }
 
+// defaultBufferShard feeds synthetic streams whose sequences are as long as a window of one to eight mebibytes
+// into Decoders with the DEFAULT BufferSize: every sequence of at most WindowSize bytes must be accepted.
+func defaultBufferShard(prop string) engine.Shard {
+	return engine.Shard{Name: prop + "/default-buffer-large-window", Run: func(st *engine.Stats, col *engine.Collector) {
+		for _, W := range []int{1<<20 + 1, 2 << 20, 8 << 20} {
+			blocks := []lz.Block{
+				{Literals: []byte("ab")},
+				{Sequences: []lz.Seq{{MatchLen: uint32(W/2 + W/4), Offset: 1}}},
+				{Sequences: []lz.Seq{{LitLen: 1, MatchLen: uint32(W - 1), Offset: 2}}, Literals: []byte("c")},
+				{Sequences: []lz.Seq{{MatchLen: uint32(W), Offset: uint32(W)}}, Literals: []byte("xyz")},
+			}
+			s, ok := finishStream(fmt.Sprintf("synthetic large-window stream W=%d", W), W, blocks)
+			if !ok {
+				panic("harness: large-window stream is not well-formed")
+			}
+			r := &acceptRun{st: st, col: col, prop: prop, pc: PCfg{Kind: "synthetic", JSON: fmt.Sprintf("{\"W\":%d}", W)}, input: s.Want, stream: &s, W: W, decB: 0}
+			ex, pts := engine.Explore(1, r.run)
+			st.Points += pts
+			st.Add("execs_default_buffer_large_window", ex)
+			st.Nontrivial++
+			st.States++
+		}
+	}}
+}
+
 func init() {
 	decProps := map[string]bool{"C07": true}
 	bfs := decShards("C07", decProps, []int{1})
 	register(&Check{
 		ID: "C07",
 		Shards: func(tier string) []engine.Shard {
-			return append(acceptShards("C07", tier), bfs(tier)...)
+			return append(append([]engine.Shard{defaultBufferShard("C07")}, acceptShards("C07", tier)...), bfs(tier)...)
 		},
 		Replay: func(raw json.RawMessage, col *engine.Collector) error {
 			var probe struct {
